@@ -181,7 +181,11 @@ def ack_resched_extend(op: int, d1: int, d2: int, a1: int, a2: int, v1: int, t: 
             w.close()
 
 
-def conservation(op: int, a1: int, m1: int, a2: int, m2: int, crash: bool, t: int) -> bool:
+class _Die(BaseException):
+    pass
+
+
+def conservation(op: int, a1: int, m1: int, a2: int, m2: int, crash: bool, t: int, crash_at: int) -> bool:
     """
     pre: 0 <= a1 <= 12 and 1 <= m1 <= 12 and 0 <= a2 <= 12 and 1 <= m2 <= 12 and 0 <= t <= 100000
     post: _
@@ -202,9 +206,20 @@ def conservation(op: int, a1: int, m1: int, a2: int, m2: int, crash: bool, t: in
             q = w.queue
             conn = w.conn()
             acked: list[str] = []
+            died = False
             if cr:
                 orig_commit = conn.commit
-                conn.commit = conn.rollback  # type: ignore[method-assign]  (the process dies at the commit)
+                ncommit = [0]
+                nth = 1 + hx.pick(crash_at, 3)  # the process dies at its nth commit (earlier commits are durable)
+
+                def dying_commit() -> None:
+                    ncommit[0] += 1
+                    if ncommit[0] == nth:
+                        conn.rollback()
+                        raise _Die()
+                    orig_commit()
+
+                conn.commit = dying_commit  # type: ignore[method-assign]
             try:
                 if o == 0:
                     q.move_to_dlq(1, "boom")
@@ -219,10 +234,14 @@ def conservation(op: int, a1: int, m1: int, a2: int, m2: int, crash: bool, t: in
                         acked.append(json.loads(_row(int(m.message_id), 0, False, 0, 0, 0, 0, "x" if m.message_id == "1" else "y")["payload"])["stage_id"])
                 else:
                     q.push(StartStage(execution_id="e1", stage_id="new1", created_at=_CREATED))
+            except _Die:
+                died = True
             finally:
                 if cr:
                     conn.commit = orig_commit  # type: ignore[method-assign]
                     conn.rollback()
+            if cr and not died:
+                return True  # fewer commits than nth: same as the run without a crash
             with hx.native():
                 def ident(r):
                     p = r["payload"]
